@@ -8,7 +8,7 @@ cd /repo || exit 3
 if ! git diff --quiet; then echo "repo dirty, refusing"; exit 3; fi
 git apply "$P" || { echo "patch does not apply"; exit 3; }
 cd /verif
-VERIF_WORK=/verif/work/mut python3 gen/run.py --prop "$PROP" "$@" 2>/dev/null | grep -E "^(VIOLATION|KNOWN|INCONCLUSIVE|VACUOUS|TOOL|ENCODING|SUMMARY|  harness)" | cut -c1-400
+VERIF_WORK=/verif/work/mut VERIF_EVIDENCE_DIR=/verif/work/mut/evidence python3 gen/run.py --prop "$PROP" "$@" 2>/dev/null | grep -E "^(VIOLATION|KNOWN|INCONCLUSIVE|VACUOUS|TOOL|ENCODING|SUMMARY|  harness)" | cut -c1-400
 rc=${PIPESTATUS[0]}
 git -C /repo checkout -- .
 echo "exit=$rc"
